@@ -4,7 +4,7 @@ independent terminal emulator present in the sandbox.  Random streams over the v
 (text incl. wide and combining glyphs, CUP/CUU/CUD/CUF/CUB, CR LF BS, ED, EL, ICH, DCH, DECAWM, DECSC/DECRC, 1049, SGR)
 are fed to a tmux pane and to `driver emu`; the visible text of every row and the cursor position must agree.
 
-usage: tools/emu_vs_tmux.py [n_cases] [seed] [wide]      (needs ./check --setup to have built the driver)
+usage: tools/emu_vs_tmux.py [n_cases] [seed] [wide|sgr]      (needs ./check --setup to have built the driver)
 """
 import os, random, subprocess, sys, time, tempfile
 
@@ -121,7 +121,67 @@ def run_emu(stream, w, h):
     return (cx, cy), rows, am
 
 
+SGRS = [b"0", b"", b"1", b"2", b"3", b"4", b"5", b"7", b"9", b"21", b"22", b"23", b"24", b"25", b"27", b"29", b"31", b"32;44", b"39", b"49",
+        b"39;49", b"90", b"97;100", b"105", b"38;5;3", b"38;5;12", b"38;5;200", b"48;5;17", b"38;2;1;2;3", b"48;2;250;128;0",
+        b"38:5:77", b"48:2::9:8:7", b"4:0", b"4:1", b"4:2", b"4:3", b"4:4", b"4:5", b"58:5:99", b"58:2::10:20:30", b"59",
+        b"1;3;4", b"0;7", b"1;38;5;9;4", b"38;2;255;255;255;48;5;0"]
+
+
+def pens_of(stream, w, h):
+    """pens of the non-blank cells according to the emulator"""
+    line = "emu %d %d 1 1 acs:- W %s\n" % (w, h, stream.hex() or "-")
+    out = subprocess.run([DRIVER, GEN], input=line.encode(), capture_output=True).stdout.decode().strip()
+    cells = out.split(" cells=")[1].split(" ")
+    res = {}
+    for i, c in enumerate(cells):
+        if c == ".":
+            continue
+        runes, pen, flags, stamp = c.split("/")
+        if runes not in ("-", "32"):
+            res[(i % w, i // w)] = (runes, pen.rsplit(",", 1)[0])
+    return res
+
+
+def sgr_main(n, seed):
+    """pens: SGR sequences interleaved with glyphs; tmux's own rendering of each line (capture-pane -e) is read back
+    through the emulator and the pens of the glyph cells are compared"""
+    r = random.Random(seed)
+    bad = 0
+    for i in range(n):
+        w, h = 24, 3
+        s = bytearray()
+        for k in range(r.randint(3, 20)):
+            s += b"\x1b[" + r.choice(SGRS) + b"m" + bytes([r.randint(0x41, 0x5a)])
+        s = bytes(s)
+        with tempfile.NamedTemporaryFile(delete=False) as f:
+            f.write(s)
+            path = f.name
+        tmux("kill-server")
+        tmux("start-server", ";", "set", "-g", "status", "off", ";", "set", "-g", "default-terminal", "tmux-256color", ";",
+             "new-session", "-d", "-x", str(w), "-y", str(h), "stty raw -echo; cat %s; sleep 30" % path)
+        time.sleep(0.25)
+        cap = tmux("capture-pane", "-p", "-e", "-t", "0").stdout.split(b"\n")
+        tmux("kill-server")
+        os.unlink(path)
+        want = pens_of(s, w, h)
+        got = {}
+        for y in range(h):
+            row = cap[y] if y < len(cap) else b""
+            for (x, _), v in pens_of(row, w, 1).items():
+                got[(x, y)] = v
+        if want != got:
+            bad += 1
+            print("DIFF case %d stream %r" % (i, s))
+            for k in sorted(set(want) | set(got)):
+                if want.get(k) != got.get(k):
+                    print("   cell", k, "emu", want.get(k), "tmux", got.get(k))
+    print("sgr cases=%d differences=%d" % (n, bad))
+    return 1 if bad else 0
+
+
 def main():
+    if len(sys.argv) > 3 and sys.argv[3] == "sgr":
+        return sgr_main(int(sys.argv[1]), int(sys.argv[2]))
     n = int(sys.argv[1]) if len(sys.argv) > 1 else 100
     seed = int(sys.argv[2]) if len(sys.argv) > 2 else 1
     wide = len(sys.argv) > 3 and sys.argv[3] == "wide"
